@@ -30,7 +30,7 @@ import (
 	"verif/harness/internal/golib"
 )
 
-const wireTimeout = 4 * time.Second
+const wireTimeout = 10 * time.Second
 
 type wireEx struct {
 	proxy  *martian.Proxy
@@ -160,7 +160,24 @@ func e2eIncluded(sent, got http.Header) string {
 	return ""
 }
 
+// Do runs the scenario; a verdict that rests on a read deadline (a loaded machine) is re-established
+// once on a fresh connection before it is reported.
 func (w *wireEx) Do(op string) core.Result {
+	r, timedOut := w.run(op)
+	if timedOut {
+		core.Count("h1.relay:retried-after-timeout")
+		r, _ = w.run(op)
+	}
+	return r
+}
+
+func isTimeoutErr(err error) bool {
+	ne, ok := err.(net.Error)
+	return ok && ne.Timeout()
+}
+
+func (w *wireEx) run(op string) (core.Result, bool) {
+	timedOut := false
 	toks := strings.Fields(op)
 	if w.proxy == nil {
 		w.start()
@@ -175,7 +192,7 @@ func (w *wireEx) Do(op string) core.Result {
 		case strings.HasPrefix(t, "x="):
 			p := strings.Split(t[2:], ":")
 			if len(p) != 3 {
-				return core.Result{Impl: "bad-op"}
+				return core.Result{Impl: "bad-op"}, false
 			}
 			m, _ := core.Unhex(p[0])
 			rq, _ := core.Unhex(p[1])
@@ -191,7 +208,7 @@ func (w *wireEx) Do(op string) core.Result {
 		}
 	}
 	if len(xs) == 0 {
-		return core.Result{Impl: "bad-op"}
+		return core.Result{Impl: "bad-op"}, false
 	}
 	w.mu.Lock()
 	for _, x := range xs {
@@ -204,7 +221,7 @@ func (w *wireEx) Do(op string) core.Result {
 
 	c, err := net.DialTimeout("tcp", w.pl.Addr().String(), 2*time.Second)
 	if err != nil {
-		return core.Result{Impl: "dial-error", Fail: "cannot reach the proxy", Sig: "c01:wire-harness"}
+		return core.Result{Impl: "dial-error", Fail: "cannot reach the proxy", Sig: "c01:wire-harness"}, false
 	}
 	defer c.Close()
 	cp := &capture{r: c}
@@ -232,6 +249,9 @@ func (w *wireEx) Do(op string) core.Result {
 		down[i] = append([]byte(nil), cp.buf.Bytes()[off:end]...)
 		off = end
 		downMsg[i] = m
+		if m.Err != nil && isTimeoutErr(m.Err) {
+			timedOut = true
+		}
 		// a "Connection: close" nobody asked for (Response.Write adds one to a HEAD answer without a
 		// length) is not obeyed: the property is about whether the connection still serves
 		if m.Class != "ok" {
@@ -347,7 +367,7 @@ func (w *wireEx) Do(op string) core.Result {
 	core.Count(fmt.Sprintf("h1.relay:served=%d/%d", served, len(xs)))
 	res.Impl = strings.Join(impl, " ; ") + fmt.Sprintf(" ; extra=%d", len(extra))
 	res.ModelOp = strings.Join(mop, " ") + fmt.Sprintf(" %d", len(extra))
-	return res
+	return res, timedOut
 }
 
 func trunc(b []byte, n int) []byte {
